@@ -55,6 +55,7 @@ def run(P, R, tier):
     once_rule(P, R)
     open_rule(P, R)
     stream_rule(P, R)
+    percol_rule(P, R)
     # the engine-side selected-output switch pr.punch and the sink gate punch_on move together (shared with C07.mirror):
     # a write of pr.punch that is not followed by Set_punch_on lets the table fill while string and file stay empty (or v.v.)
     from . import c07 as C07
@@ -97,6 +98,82 @@ def once_rule(P, R):
             for c in T.children(node):
                 rec(c, in_loop)
         rec(f["body"], False)
+
+
+def percol_rule(P, R):
+    """The text row is positional, the table is keyed by heading: every selected column must be punched exactly once per row.
+    Where a punch_* function finds the value by searching nested lists (solid solutions -> components), the punch sits inside
+    the search loops; after punching, control must leave EVERY search loop up to the loop over the selected names - the
+    innermost by a break in the punching block, each outer one by a break under the found flag - or a name that occurs in two
+    lists is punched twice: the text row gets an extra cell (all later cells shift) while the table cell is overwritten."""
+    R.rule("C05.percol", "a punch inside nested search loops leaves every search loop: one cell per selected column and row", minimum=2)
+    LOOPS = ("For", "While", "Do", "RangeFor")
+
+    def body_of(lp):
+        b = lp[5] if lp[0] == "For" else lp[3] if lp[0] == "While" else lp[2] if lp[0] == "Do" else lp[4]
+        return b[2] if T.is_node(b) and b[0] == "Compound" else [b]
+    n = 0
+    for key, f in sorted(P.functions.items()):
+        if not f["q"].startswith("Phreeqc::punch_") or f["q"].endswith(("punch_model", "punch_model_heading", "punch_all")):
+            continue
+        found = []
+
+        def rec(nd, loops):
+            if not T.is_node(nd):
+                return
+            if nd[0] in LOOPS:
+                for c in T.children(nd):
+                    rec(c, loops + [nd])
+                return
+            if nd[0] == "Call" and T.callee_name(nd) == "fpunchf" and len(loops) >= 2:
+                found.append((nd, list(loops)))
+            for c in T.children(nd):
+                rec(c, loops)
+        rec(f["body"], [])
+        for call, loops in found:
+            inner = loops[1:]              # search loops below the loop over the selected names
+            for depth, lp in enumerate(reversed(inner)):
+                n += 1
+                inst = "%s:punch@%d:loop@%d" % (f["q"].split("::")[-1], call[1], lp[1])
+                stm = body_of(lp)
+                if depth == 0:
+                    # innermost: a Break in the same block chain as the punch, after it
+                    okk = False
+
+                    def has_break_after(lst):
+                        hit = False
+                        for s_ in lst:
+                            if not T.is_node(s_):
+                                continue
+                            if any(y is call for y in T.walk(s_)):
+                                hit = True
+                                if s_[0] in ("If", "Compound"):
+                                    sub = s_[3][2] if s_[0] == "If" and T.is_node(s_[3]) and s_[3][0] == "Compound" else (s_[2] if s_[0] == "Compound" else [])
+                                    if any(any(y is call for y in T.walk(z)) for z in sub if T.is_node(z)) and has_break_after(sub):
+                                        return True
+                                    if s_[0] == "If" and T.is_node(s_[4]):
+                                        sub2 = s_[4][2] if s_[4][0] == "Compound" else [s_[4]]
+                                        if any(any(y is call for y in T.walk(z)) for z in sub2 if T.is_node(z)) and has_break_after(sub2):
+                                            return True
+                                continue
+                            if hit and s_[0] == "Break":
+                                return True
+                        return False
+                    okk = has_break_after(stm)
+                    why = "break after the punch"
+                else:
+                    # outer search loop: after the nested loop, `if (<flag>) break;` or an unconditional break
+                    idx = next((i for i, s_ in enumerate(stm) if T.is_node(s_) and any(y is call for y in T.walk(s_))), None)
+                    after = stm[idx + 1:] if idx is not None else []
+                    okk = any(T.is_node(s_) and (s_[0] == "Break" or (s_[0] == "If" and any(y[0] == "Break" for y in T.walk(s_[3])))) for s_ in after)
+                    why = "break under the found flag after the nested search"
+                if okk:
+                    R.ok("C05.percol", inst, why)
+                else:
+                    R.violation("C05.percol", inst, "after punching (line %d) control does not leave the search loop at line %d: a selected name that occurs in more than one list is punched once "
+                                "per occurrence - an extra cell in the text row, an overwritten cell in the table" % (call[1], lp[1]), file=f["file"], line=lp[1], function=f["q"])
+    if n < 2:
+        R.anchor_missing("C05.percol", "no punch inside nested search loops found")
 
 
 def stream_rule(P, R):
